@@ -1000,3 +1000,22 @@ func TestVerifC16RoundTripRace(t *testing.T) {
 // completed its trace - it must not be completed a second time. (Borrows the HTTP/2 exchange driver of the C15
 // harness; waits out the real retry period, hence only a handful of cases.)
 func TestVerifC16RetryTimer(t *testing.T) { vfRetryTimerUnit(t, "C16RetryTimer") }
+
+// TestVerifC16H2Once: the HTTP/2 conversations of the C15 harness seen from C16's side - "each traced HTTP operation
+// completes its trace exactly once": whatever the connection carries (table-size changes, header lists of any size,
+// graceful GOAWAY pairs, resets, refusals), a named operation is completed once, never zero times and never twice.
+// Only the count is judged here; what the trace says is C15's business.
+func TestVerifC16H2Once(t *testing.T) {
+	verifkit.Run(t, "C16H2Once", verifkit.Spec[vfExchange]{
+		Gen: vfGenExchange,
+		Check: func(ex vfExchange) error {
+			err := vfC15Check(ex)
+			var v *verifkit.Violation
+			if errors.As(err, &v) && !strings.HasPrefix(v.Key, "h2-trace-count") && !strings.HasPrefix(v.Key, "h2-missing-trace") && !strings.HasPrefix(v.Key, "panic") {
+				return nil
+			}
+			return err
+		},
+		Classify: vfC15Classify,
+	})
+}
